@@ -695,7 +695,7 @@ def run(ctx):
     if ctx.tier == "quick":
         explore(ctx, h, drv, "main", 6, 60, 70, 60, grow=(20000, 40000), mfrac=0.5)
     else:
-        explore(ctx, h, drv, "main", 30, 200, 400, 300, nsynth=600)
+        explore(ctx, h, drv, "main", 20, 160, 250, 200, mfrac=0.12, nsynth=600)
     if ctx.proof_broken or ctx.corr_broken:
         ctx.log("obligation or correspondence broken: widening the search for a failing input")
         for x in (ctx.proof_broken + ctx.corr_broken)[:3]:
